@@ -65,7 +65,14 @@ CLAIMED = {
              'unreadable configuration is an error and nothing but the configuration file is touched (C04_config_error); C02_power_failure '
              'gives "0 only if stored durably". Tied to the real binary: 40 (thorough 1500) populations with defective messages of 7 kinds '
              '(exit 1 iff one is present, good messages end where the error-free run puts them, defective ones untouched, second maildir still '
-             'processed, conformance with Model.mainP) and single-fault sweeps of 5 stdin scenarios judged by the MDA contract (75/1/0, spool removed).',
+             'processed, conformance with Model.mainP) and single-fault sweeps of 5 stdin scenarios judged by the MDA contract (75/1/0, spool removed). '
+             'Command errors: 27 programs (exit statuses 0..255, signals, missing / not executable / directory / bad interpreter, PATH lookup, '
+             'fork and waitpid failing) as command conditions and exec actions in 10 shapes on the real binary, judged by the documented '
+             'meaning (tools/cmdstatus.py), and the real evaluator in-process on the same outcomes against Model.eval; machine-checked: '
+             'every non-zero or signalled status of an exec action is an error of the message and stops its actions '
+             '(C04_exec_status_is_error, arbitrary call results), a command condition that cannot be run is an error '
+             '(C04_command_failure_is_error); death by a signal of a command condition is "no match" in the code (pinned, '
+             'C04_command_signal_is_error_false).',
         note='Also machine-checked for arbitrary call results: the calls issued while one message is processed mutate only that message\'s own '
              'name and names this run created (C04_frame, C04_isolation_calls, C04_isolation_calls_main); a message whose processing '
              'fails does not stop the walk and the error flag is sticky (C04_error_isolated, C04_error_flag_inert); the error flag of the '
@@ -225,7 +232,11 @@ CLAIMED = {
              'real binary: generated exec/command scenarios with hostile argument vectors, every stdin option, exec after label/move, inside '
              'attachment blocks, in stdin mode, exit statuses and signals; a helper program records argv bytes, stdin bytes, inherited '
              'descriptors and the stdin target, compared with the configured vector and the current message / decoded body / part; '
-             'call-by-call conformance with Model.mainP.',
+             'call-by-call conformance with Model.mainP. Status mapping: exec() transcribed on the raw wait status (Model.execStatus) and '
+             'characterised for EVERY status (C13_exec_status_mapping); a command condition matches iff the child exited 0, is "no match" '
+             'iff it exited 1..126/128..255 or was signalled, an error iff it exited 127 or could not be forked/waited for '
+             '(C13_command_status, _run); the command status family of tools/cmdstatus.py (27 programs x 10 shapes on the real binary, 34 '
+             'outcomes x 12 rule forms in-process) ties both to the code.',
         note='Also machine-checked: argv = strings.map (cstr . interpolate), same length and order, no splitting of an argument containing '
              'blanks/quotes/globs (C13_argv_exact, _length_order, _no_splitting); the stdin content is C11_exec_stdin. Close-on-exec: in '
              'the model every descriptor-creating call IS its close-on-exec form, so the obligation sits in the trace canonicaliser '
